@@ -22,7 +22,7 @@ def _is_ws_token_expr(e, fn_node):
 
 
 def site_inventory_residual(rep):
-    return site_inventory(rep, only=set(NOT_YET))
+    return site_inventory(rep, only=set(NOT_YET) | set(SHAPE_ONLY))
 
 
 def site_inventory(rep, only=None):
@@ -112,9 +112,10 @@ SITE_FUNCS = [(O + 'StripWhitespaceFilter._stripws_default', None), (O + 'StripW
               (RF + '_process_parenthesis', 'sites'), (RF + '_process_values', 'sites'), (RF + 'process', 'sites'),
               (AF + '_split_kwds', 'sites'), (AF + '_process_parenthesis', 'sites'),
               (O + 'StripWhitespaceFilter.process', 'body')]
-NOT_YET = [RF + '_process_identifierlist', RF + '_process_case', RF + '_process_function', RF + '_process_default',
-           AF + '_process_statement', AF + '_process_identifierlist', AF + '_process_case', AF + '_process_default',
-           O + 'StripWhitespaceFilter._stripws']
+NOT_YET = [RF + '_process_case', RF + '_process_function', RF + '_process_default',
+           AF + '_process_default', O + 'StripWhitespaceFilter._stripws']
+# verified on explicit node shapes only (the syntactic inventory is kept for them as well: it speaks about every path)
+SHAPE_ONLY = [RF + '_process_identifierlist', AF + '_process_identifierlist', AF + '_process_case', AF + '_process_statement']
 
 
 def pure_helpers(rep):
@@ -137,13 +138,21 @@ def pure_helpers(rep):
 def run(rep):
     rep.notes.append('layout routines whose sites are not yet under SMT obligations (syntactic inventory + bounded only): '
                      + ', '.join(NOT_YET))
+    common.load_contracts()
+    from contracts.filters import CASE_LAYOUT_CASES, MORE_LAYOUT_CASES
     return generic.run_generic(
-        rep, [('sqlparse.formatter.validate_options', None)] + SITE_FUNCS,
+        rep, [('sqlparse.formatter.validate_options', None)] + SITE_FUNCS + list(CASE_LAYOUT_CASES) + list(MORE_LAYOUT_CASES),
         structural=[site_inventory_residual, pure_helpers, stack_mapping],
         assumptions=['tree-level clause: per-site SMT obligations (every removal / value store / insertion reached on any path '
                      'of the listed routines concerns a whitespace token) over the heap model; loops are over-approximated '
                      'by an arbitrary element in a havoc-ed state; calls of sibling layout routines are replaced by "may '
-                     'restructure the lists of its argument" (each routine is verified under its own contract)',
+                     'restructure the lists of its argument" (each routine is verified under its own contract); site '
+                     'obligations are also generated inside helpers executed in place (insert_before / insert_after)',
+                     'AlignedIndentFilter._process_case (CASE shapes with 1-2 WHEN and optional ELSE), '
+                     'AlignedIndentFilter._process_identifierlist and ReindentFilter._process_identifierlist (lists of 2 '
+                     'items; 3 items in the thorough tier) are verified on explicit shapes of the node (arbitrary item classes '
+                     'and texts, arbitrary filter settings): every insertion is a fresh whitespace token, no exception escapes '
+                     '(for _process_case this includes: the closing keyword that the grouping guarantees is found again)',
                      'the routines listed in the notes are covered by a syntactic site inventory and the bounded stand-in only',
                      're-tokenising the output gives the same significant tokens / same number of statements: regex '
                      'semantics, bounded stand-in only'],
